@@ -132,9 +132,47 @@ def register(PROPS, COMPONENTS):
                                  oracle=oracle_trigger)
     PROPS["C11"] = dict(
         lean_files=["ConcVerif/Props/C11.lean"], components=["trigger"], stage="B",
-        level_text="TODO",
-        level_note="TODO",
-        trusted_base=["Model/Trigger.lean is a hand-written model of TriggerVariable.hpp (all nine public methods)"],
-        partial=[],
-        assumptions=[],
+        level_text="Lean 4 theorems (kernel-checked; any number of threads, any mix of the nine public methods, any "
+                   "interleaving, spurious wake-ups and time-outs as ordinary events) over an executable model of "
+                   "TriggerVariable.hpp at the level of its two atomic flags, two mutexes and two condition variables, "
+                   "with a ghost history of clear / set-active / set-triggered / set-inactive steps: wait()/wait_for() "
+                   "that observed an activation return true only after a set-triggered step later than that activation's "
+                   "clear step, and `triggered` is true from their deciding load until they release triggerLock; the "
+                   "same for waitActivation()/wait_forActivation() and `activated`; the timed forms return false only from "
+                   "a deciding load of false under the matching mutex after a time-out (flag false until the mutex is "
+                   "released); no-lost-wake-up invariants for both condition variables, and their history form under "
+                   "the proviso (no clear step after the set-triggered step / no set-inactive after the set-active); "
+                   "trigger() on an inactive variable changes nothing but its own pc and returns false, and returns "
+                   "false only so; reset() releases activeLock only with `activated` false, and after a set-inactive "
+                   "step, absent a later set-active, `activated` is false and `triggered` is true unless an activate() "
+                   "is between its clear and set-active steps; L2-L4 (mutex holders always enabled, bounded remaining "
+                   "steps of a waiter while its flag is true, per-thread deadlock-freedom); a concrete accepted trace "
+                   "showing the re-activation proviso is necessary. The model is tied to the source on every run: the "
+                   "unmodified header runs against substituted std primitives under a deterministic scheduler and "
+                   "every primitive-level trace must be accepted by the model's step function with all edges covered.",
+        level_note="Trusted: Lean kernel (+propext, Classical.choice, Quot.sound), the primitive semantics assumed for std::mutex / "
+                   "condition_variable / atomics as interleaved cells, the shim+scheduler+driver glue. Partial: the liveness "
+                   "clause is proved as the safety facts that imply it under weak fairness (L1-L4); the fair-termination "
+                   "step itself is not mechanised.",
+        trusted_base=["Model/Trigger.lean is a hand-written model of TriggerVariable.hpp (all nine public methods, reset's "
+                      "unlock/trigger/lock loop with its acquire load included); it is a discipline slightly weaker than "
+                      "today's code: the store and the notify_all inside trigger()'s / activate()'s critical section may "
+                      "come in either order, waits may load their flag any number of times under the mutex, reset's loop "
+                      "load may be acquire or stronger",
+                      "the ghost history (hist, lastClear, actClear, myClear, obs) is updated by the model's step function at "
+                      "the four kinds of store steps and at the fast-path load of wait()/wait_for(); its reading is part of "
+                      "the statement of the theorems",
+                      "the shim's condition variable re-acquires the mutex in the same step as the wake-up / time-out "
+                      "(a time-out that loses a race with a notification appears as a notified wake-up)"],
+        partial=["'a successful trigger(), activate() or reset() releases every thread already blocked on that event' is "
+                 "proved as the safety facts L1-L4 (no lost wake-up for both condition variables incl. the history form "
+                 "under the re-activation proviso, mutex holders never blocked, bounded remaining own steps of a waiter "
+                 "while its flag stays true, per-thread deadlock-freedom: a thread is enabled, or waits for a mutex whose "
+                 "holder is enabled, or sleeps untimed on an event that has not happened); the final fair-scheduler "
+                 "termination step is not mechanised"],
+        assumptions=["std::mutex / std::condition_variable behave as in Base semantics (spurious wake-ups allowed; timed waits "
+                     "may time out at any point)",
+                     "seq_cst atomics (and reset's acquire load) are interleaved cells (C07 carries the memory-model half)",
+                     "the property's own proviso: the wake-up clause is claimed only while no clear step (re-activation) "
+                     "follows the set-triggered step; C11_proviso_needed shows a concrete accepted trace where it fails otherwise"],
     )
